@@ -32,6 +32,7 @@ func checkC10(p *Prog, c *Check) {
 	c10NoWriteBeforeRefusal(p, c)
 	c10Membership(p, c)
 	c10CheckTx(p, c)
+	linearSearchRule(p, c, "C10-R4.member", "keyper/shutterevents.BatchConfig.KeyperIndex", "$p0.Keypers")
 }
 
 var c10Reviewed = map[string]string{
